@@ -71,8 +71,8 @@ def bounds(tier):
     if tier == "quick":
         return {
             "utemp": {
-                "level 0 and core level 1": {"<=2 steps": _g(G_SMALL), "3 steps": _g(G_SMALL)},
-                "other level 1, level 2 (core pairs)": {"<=2 steps": _g(G_SMALL)},
+                "levels 0,1": {"<=2 steps": _g(G_SMALL), "3 steps": _g(G_SMALL)},
+                "level 2 (core pairs)": {"<=2 steps": _g(G_SMALL)},
             },
             "uprob": {"levels": [0, 1], "steps": 2, "times": [str(x) for x in UPROB_TIMES]},
         }
@@ -126,7 +126,7 @@ def _is_core(cid):
 def plans_for(cid, tier):
     level = len(cid)
     if tier == "quick":
-        return plan_set(G_SMALL, G_SMALL if level == 0 or (level == 1 and _is_core(cid)) else None)
+        return plan_set(G_SMALL, G_SMALL if level <= 1 else None)
     if level <= 1:
         return plan_set(G_FULL, G_SMALL)
     return plan_set(G_MID, G_SMALL if _is_core(cid) else None)
